@@ -8,8 +8,10 @@ package vsched
 import (
 	"context"
 	"fmt"
+	"os"
 	"reflect"
 	"runtime"
+	"runtime/debug"
 	"sort"
 	"sync"
 	"time"
@@ -61,7 +63,10 @@ type Exec struct {
 	timers   []*vtimer
 }
 
+var debugTimers = os.Getenv("VSCHED_DEBUG_TIMERS") != ""
+
 type vtimer struct {
+	stack string
 	at   time.Time
 	fire func()
 	done bool
@@ -79,6 +84,9 @@ func (e *Exec) fireTimer() bool {
 		return false
 	}
 	best.done = true
+	if debugTimers {
+		fmt.Printf("DEBUG fireTimer at=%v clock=%v created:\n%s\n", best.at, e.clock, best.stack)
+	}
 	if best.at.After(e.clock) {
 		e.clock = best.at
 	}
@@ -527,6 +535,9 @@ func WithDeadline(parent context.Context, at time.Time) (context.Context, contex
 	}
 	ctx, cancel := WithCancel(parent)
 	tm := &vtimer{at: at, fire: cancel}
+	if debugTimers {
+		tm.stack = string(debug.Stack())
+	}
 	E.timers = append(E.timers, tm)
 	return ctx, func() { tm.done = true; cancel() }
 }
